@@ -376,6 +376,25 @@ fn judge_int<T: LInt, const FMT: u128, const NOSEP: u128>(cx: &mut Cx, d: &Desc,
             _ => {},
         }
     }
+    // the multi-digit (SWAR) code paths are only taken with no_multi_digit(false): totality and agreement there too
+    {
+        let io2 = lexical_core::ParseIntegerOptions::builder().no_multi_digit(!io.get_no_multi_digit()).build_unchecked();
+        let mc = parse_complete_opt::<T, FMT>(&mut cx.arena, input, place, &io2);
+        let mp = parse_partial_opt::<T, FMT>(&mut cx.arena, input, place, &io2);
+        for (entry, r) in [("complete/multi-digit", &mc), ("partial/multi-digit", &mp)] {
+            match r {
+                R::Panic(p) => viol(cx, "C10", "panic", d, "", ty, input, format!("{entry}: {p}")),
+                R::Ok(_, n) if *n > input.len() => viol(cx, "C10", "count-beyond-input", d, "", ty, input, format!("{entry}: n={n}")),
+                R::Err(e) if err_index(e) > input.len() as i64 => viol(cx, "C10", "index-beyond-input", d, "", ty, input, format!("{entry}: {e:?}")),
+                _ => {},
+            }
+        }
+        if mc != rc || mp != rp {
+            // C04: the option only selects an optimisation, results must not depend on it
+            viol(cx, "C04", "no_multi_digit-changes-result", d, "", ty, input, format!("digit-by-digit: {} / {}  multi-digit: {} / {}", fmt_ri(&rc), fmt_ri(&rp), fmt_ri(&mc), fmt_ri(&mp)));
+        }
+        bump(cx, "evals.int-multi-digit");
+    }
     if matches!(rc, R::Panic(_)) || matches!(rp, R::Panic(_)) {
         return None;
     }
@@ -919,6 +938,14 @@ fn run_format<const FMT: u128, const NOSEP: u128>(cx: &mut Cx, d: &Desc, idx: us
     all_strings(&alpha, if cx.small { 2 } else if cx.thorough { 5 } else { 4 }, &mut inputs);
     for _ in 0..ntok / 2 {
         inputs.push(token_int(&mut rng, d));
+    }
+    // sign + k digits for every k around the 4- and 8-byte SWAR block sizes (input length vs remaining length)
+    for k in [3usize, 4, 5, 7, 8, 9, 11, 12, 15, 16, 17, 19, 20] {
+        for sign in [&b""[..], b"-", b"+"] {
+            let mut t = sign.to_vec();
+            rand_digits(&mut rng, (d.radix as u32).min(10), k, &mut t);
+            inputs.push(t);
+        }
     }
     let mut accepted: Vec<(Vec<u8>, i64)> = Vec::new();
     for inp in &inputs {
